@@ -33,6 +33,7 @@ TokText(id) == CASE id = "s.pn" -> "ex:a"           [] id = "s.abs" -> "<http://
                  [] id = "o.spec" -> "\"a # b ; c , d . e\""    [] id = "o.esc" -> "\"q\\\"u\\\\\""
                  [] id = "o.cls" -> "ex:C"
                  [] id = "o.https" -> "<https://s.org/x>"  [] id = "s.https" -> "<https://s.org/y#z>"  [] id = "o.urn" -> "<urn:x:1>"
+                 [] id = "@re" -> "@prefix ex: <http://ex2.org/> ."      \* a directive in the middle of the document re-binds the label
                  [] OTHER -> id                      \* punctuation ; , .
 \* token id -> the RDF term a standard Turtle parser produces (objects: kind + IRI / label, literals: datatype)
 TokTerm(id) == CASE id = "s.pn" -> <<"IRI", EXNS \o "a">>   [] id = "s.abs" -> <<"IRI", "http://x.org/s">>
@@ -56,21 +57,28 @@ ObjToks == {"o.pn", "o.abs", "o.rel", "o.bn", "o.int", "o.str", "o.xsd", "o.dti"
 Punct == {";", ",", "."}
 
 \* abstract triples of a token sequence S P O (, O)* (; P O (, O)*)* . ...   (what a standard parser yields)
-RECURSIVE AbsTriples(_, _, _, _, _)
-AbsTriples(toks, i, s, p, acc) ==
+\* a prefix label means the namespace of the LAST directive that bound it before the token ("@re" re-binds ex: to EX2NS)
+EX2NS == "http://ex2.org/"
+ReNs(str, ns) == IF Len(str) >= Len(EXNS) /\ SubSeq(str, 1, Len(EXNS)) = EXNS THEN ns \o SubSeq(str, Len(EXNS) + 1, Len(str)) ELSE str
+Rebound(term, ns) == <<ReNs(term[1], ns), ReNs(term[2], ns)>>
+RECURSIVE AbsTriplesNs(_, _, _, _, _, _)
+AbsTriplesNs(toks, i, s, p, acc, ns) ==
   IF i > Len(toks) THEN acc
   ELSE LET t == toks[i] IN
-       IF t \in SubjToks THEN AbsTriples(toks, i + 1, t, p, acc)
-       ELSE IF t \in PredToks THEN AbsTriples(toks, i + 1, s, t, acc)
-       ELSE IF t \in ObjToks THEN AbsTriples(toks, i + 1, s, p, Append(acc, <<TokTerm(s), TokTerm(p)[2], TokTerm(t)>>))
-       ELSE AbsTriples(toks, i + 1, s, p, acc)
-Expected(toks) == AbsTriples(toks, 1, "", "", <<>>)
+       IF t \in SubjToks THEN AbsTriplesNs(toks, i + 1, t, p, acc, ns)
+       ELSE IF t \in PredToks THEN AbsTriplesNs(toks, i + 1, s, t, acc, ns)
+       ELSE IF t \in ObjToks THEN AbsTriplesNs(toks, i + 1, s, p,
+                                        Append(acc, <<Rebound(TokTerm(s), ns), Rebound(TokTerm(p), ns)[2], Rebound(TokTerm(t), ns)>>), ns)
+       ELSE IF t = "@re" THEN AbsTriplesNs(toks, i + 1, s, p, acc, EX2NS)
+       ELSE AbsTriplesNs(toks, i + 1, s, p, acc, ns)
+Expected(toks) == AbsTriplesNs(toks, 1, "", "", <<>>, EXNS)
 \* well-formed token sequences of the dialect
 RECURSIVE WellFormed(_, _, _)
 WellFormed(toks, i, st) ==      \* st: what is expected next: "S", "P", "O", "X" (punctuation)
   IF i > Len(toks) THEN st = "S"
   ELSE LET t == toks[i] IN
-       CASE st = "S" -> t \in SubjToks /\ WellFormed(toks, i + 1, "P")
+       CASE st = "S" -> \/ t \in SubjToks /\ WellFormed(toks, i + 1, "P")
+                        \/ t = "@re" /\ WellFormed(toks, i + 1, "S")          \* a directive stands between statements
          [] st = "P" -> t \in PredToks /\ WellFormed(toks, i + 1, "O")
          [] st = "O" -> t \in ObjToks /\ WellFormed(toks, i + 1, "X")
          [] st = "X" -> \/ t = "," /\ WellFormed(toks, i + 1, "O")
